@@ -22,7 +22,7 @@ ASSUMPTIONS = ['"well conditioned" is made checkable as cond_2(A) <= 1e3 on the 
                'default nswp=22, kickrank=4, local_iterations=40, resets=2']
 REQUIRED_REACH = ['solvers:amen_solve', 'solvers:_amen_solve_python', '_iterative_solvers:gmres_restart', '_iterative_solvers:BiCGSTAB_reset', 'solvers:_LinearOp.apply_prec',
                   'solvers:_LinearOp.matvec', 'solvers:_local_product']
-REQUIRED_COUNTS = {'ran:gmres': 5, 'ran:bicgstab': 5, 'ran:direct': 5, 'ran:prec': 5, 'class:spd': 1, 'class:dd': 1, 'class:lap': 1, 'class:cd': 1, 'class:kron': 5, 'option:band_diagonal': 5, 'operator-cores-noncontiguous': 20, 'x0:user': 1, 'x0:near': 3, 'x0:degenerate': 4, 'executions': 150}
+REQUIRED_COUNTS = {'ran:gmres': 5, 'ran:bicgstab': 5, 'ran:direct': 5, 'ran:prec': 5, 'class:spd': 1, 'class:dd': 1, 'class:lap': 1, 'class:cd': 1, 'class:kron': 5, 'class:kronecker-sum-with-unequal-band-widths': 5, 'option:band_diagonal': 5, 'operator-cores-noncontiguous': 20, 'x0:user': 1, 'x0:near': 3, 'x0:degenerate': 4, 'executions': 150}
 LINE_FUNCS = ['_amen_solve_python', 'BiCGSTAB_reset', 'gmres', '_LinearOp.matvec']
 CASE_TIMEOUT = {'quick': 300, 'thorough': 600}
 MAX_TIMEOUT_FRACTION = 0.0
@@ -103,6 +103,25 @@ def cases(tier, seed):
             for j in range(1 if not T else 3):
                 cs.append({'gen': 'solve', 'cls': 'lap', 'N': N, 'RB': [1] * (len(N) + 1), 'Rb': [1] + [2] * (len(N) - 1) + [1], 'rhs': 'random', 'cfac': 1.0, 'shift': 0.0,
                            'eps': 1e-10, 'vseed': 777 + j, 'prec': prec, 'max_full': 0, 'ls': ls, 'x0': 'none', 'sidx': j})
+    # Kronecker sums whose 1-D operators have DIFFERENT band widths (tridiagonal, diagonal, pentadiagonal in any order), default options for the band structure
+    for i in range(18 if tier == 'quick' else 150):
+        d = rng.choice([2, 3, 3])
+        N = [rng.randint(4, 8) for _ in range(d)]
+        oned = [rng.choice(('tri', 'diag', 'penta')) for _ in range(d)]
+        if i % 3 == 0:
+            oned = (['tri'] * (d - 1) + ['diag']) if i % 2 else (['penta'] + ['tri'] * (d - 1))
+        if all(o == 'diag' for o in oned):
+            oned[0] = 'tri'
+        cs.append({'gen': 'solve', 'cls': ['lap', 'cd'][i % 2], 'N': N, 'RB': [1] * (d + 1), 'Rb': [1] + [rng.randint(1, 3) for _ in range(d - 1)] + [1], 'rhs': ['random', 'image'][(i // 2) % 2],
+                   'cfac': 1.3, 'shift': 0.0, 'band': -1, 'eps': 10 ** rng.uniform(-9, -4), 'vseed': rng.randrange(2 ** 40), 'prec': [None, 'c', 'r'][i % 3], 'max_full': [0, 0, 500][(i // 3) % 3],
+                   'ls': [1, 2][(i // 2) % 2], 'x0': 'none', 'sidx': 0, 'oned': oned})
+    # ALMOST symmetric operators: diffusion plus a weak upwind convection term (relative asymmetry 1e-3 .. 1e-7) at tight eps - a shortcut for symmetric systems taken on an
+    # "approximately symmetric" test leaves a residual of the size of the asymmetry
+    for i in range(12 if tier == 'quick' else 96):
+        d = rng.choice([2, 3])
+        cs.append({'gen': 'solve', 'cls': 'cd', 'N': [rng.randint(4, 9) for _ in range(d)], 'RB': [1] * (d + 1), 'Rb': [1] + [rng.randint(1, 3) for _ in range(d - 1)] + [1], 'rhs': ['random', 'image'][i % 2],
+                   'cfac': 1.0, 'conv': [1e-5, 1e-6, 1e-7, 1e-3][i % 4], 'shift': [0.0, 0.1][(i // 4) % 2], 'band': -1, 'eps': [1e-10, 1e-9][(i // 2) % 2], 'vseed': rng.randrange(2 ** 40),
+                   'prec': [None, 'c', None, 'r'][(i // 3) % 4], 'max_full': [500, 500, 0][i % 3], 'ls': [1, 2][(i // 2) % 2], 'x0': ['none', 'user'][(i // 6) % 2], 'sidx': 0})
     # directed (defect #43): tiny right-hand sides with preconditioned GMRES local solves on small Laplacian-like systems - the first local tolerance is far below
     # machine precision relative to the initial local residual
     for i in range(12 if tier == 'quick' else 60):
@@ -112,7 +131,7 @@ def cases(tier, seed):
     return cs
 
 
-def laplace_tt(N, shift, dt, conv=0.0):
+def laplace_tt(N, shift, dt, conv=0.0, oned=None):
     """Kronecker sum of 1-D operators tridiag(-1-conv, 2+conv, -1): Laplacian for conv=0, upwind convection-diffusion (non-symmetric,
     diagonally dominant) otherwise."""
     import torchtt
@@ -120,6 +139,11 @@ def laplace_tt(N, shift, dt, conv=0.0):
     cores = []
     for k, n in enumerate(N):
         L = (2 + conv) * torch.eye(n, dtype=dt) - torch.diag(torch.ones(n - 1, dtype=dt), 1) - (1 + conv) * torch.diag(torch.ones(n - 1, dtype=dt), -1)
+        kind1 = oned[k] if oned else 'tri'
+        if kind1 == 'diag':          # a positive diagonal 1-D operator (a reaction / mass term): band width 0
+            L = torch.diag(1.0 + 2.0 * torch.linspace(0.0, 1.0, n, dtype=dt))
+        elif kind1 == 'penta' and n >= 3:       # band width 2, still diagonally dominant
+            L = L + 0.5 * torch.eye(n, dtype=dt) - 0.25 * torch.diag(torch.ones(n - 2, dtype=dt), 2) - 0.25 * torch.diag(torch.ones(n - 2, dtype=dt), -2)
         if k == 0:
             L = L + shift * torch.eye(n, dtype=dt)
         I = torch.eye(n, dtype=dt)
@@ -145,7 +169,9 @@ def build_system(case, ctx, g):
     d = len(N)
     n = dn.prod(N)
     if cls in ('lap', 'cd'):
-        A = laplace_tt(N, case['shift'], dt, conv=(0.5 + (case['cfac'] % 1.0)) if cls == 'cd' else 0.0)
+        A = laplace_tt(N, case['shift'], dt, conv=case.get('conv', 0.5 + (case['cfac'] % 1.0)) if cls == 'cd' else 0.0, oned=case.get('oned'))
+        if case.get('oned'):
+            ctx.count('class:kronecker-sum-with-unequal-band-widths')
     elif cls == 'kron':
         # A = A_1 (x) ... (x) A_d with cond(A_k) <= 1e3^(1/d): SPD factors I + G^T G / |G|^2 * c, or diagonally dominant I + 0.3 G / |G|
         fac = []
